@@ -163,6 +163,25 @@ func (r *sliceReader) Token() (xml.Token, error) {
 	return xml.CopyToken(t), nil
 }
 
+// rawReader hands out the stored tokens themselves (no copies), as a reader an
+// application writes over tokens it keeps does.
+type rawReader struct {
+	toks []xml.Token
+	i    int
+}
+
+func (r *rawReader) Token() (xml.Token, error) {
+	if r.i >= len(r.toks) {
+		return nil, io.EOF
+	}
+	r.i++
+	return r.toks[r.i-1], nil
+}
+
+// RawTokenReader returns a reader that yields the tokens of t as they are: the
+// attribute slices of the start elements it returns are the ones in t.
+func RawTokenReader(t []xml.Token) xml.TokenReader { return &rawReader{toks: t} }
+
 // Reader returns a fresh xml.TokenReader over the element.
 func (n *Node) Reader() xml.TokenReader { return &sliceReader{toks: n.Tokens()} }
 
